@@ -100,3 +100,14 @@ Example C05_src_examples :
   gen_parse_index (tokB [49]) 2 7 9 = Ret (Ok 1) /\
   gen_parse_index (tokB [45]) 2 7 9 = Ret (Err (ResolveError_OutOfBounds 7 9 (mk_OutOfBoundsError 2 2))).
 Proof. vm_compute. repeat split. Qed.
+
+(* ==== resolve_mut as a REFERENCE, re-translated in lens mode (DESIGN 13.8) =============================================== *)
+From JP Require Import Model.Pointer SpecHist Proofs.HistoryProofs Generated.ScanTreeMut Proofs.GenEquivTreeMut Proofs.GenClosureMut.
+
+(* `doc.resolve_mut(p)` of the current source returns, on both backends and for EVERY pointer text, a reference AT the path
+   the model's resolve reports: it shows that node, writing through it replaces exactly that node ([update_at]), and the
+   walk itself leaves the document alone; errors and panics are the model's *)
+Theorem C05_src_resolve_mut_is_reference : forall (be : backend) (d : value) (p : str),
+  lres_rel d d (gen_resolve_mut_lens be d (lens_root d) p) (resolve p d).
+Proof. exact gen_resolve_mut_lens_ok. Qed.
+Print Assumptions C05_src_resolve_mut_is_reference.
